@@ -66,6 +66,84 @@ func expandBoolPhi(c Cond, depth int) []Cond {
 	return out
 }
 
+// predicateCallConds: the condition is the verdict of an unexported boolean helper — `if exhausted(d, sub) {…}`: what
+// every path of the helper to that verdict has in common also holds here (conditions are over the helper's own
+// values; consumers that look at sources see through its parameters when it has a single call site).
+func predicateCallConds(c Cond, depth int) []Cond {
+	call, ok := c.V.(*ssa.Call)
+	if !ok || depth > 3 || lastCtx == nil {
+		return nil
+	}
+	g := call.Call.StaticCallee()
+	if g == nil || len(g.Blocks) == 0 || g.Object() == nil || g.Object().Exported() || !lastCtx.inModule(g) {
+		return nil
+	}
+	res := g.Signature.Results()
+	if res.Len() != 1 {
+		return nil
+	}
+	if bt, isB := res.At(0).Type().Underlying().(*types.Basic); !isB || bt.Kind() != types.Bool {
+		return nil
+	}
+	type key struct {
+		v   ssa.Value
+		pol bool
+	}
+	var common map[key]bool
+	var order []Cond
+	npaths := 0
+	for _, b := range g.Blocks {
+		if len(b.Instrs) == 0 {
+			continue
+		}
+		ret, isRet := b.Instrs[len(b.Instrs)-1].(*ssa.Return)
+		if !isRet || len(ret.Results) != 1 {
+			continue
+		}
+		rv := retResult(ret, 0)
+		var extra []Cond
+		if k, isK := rv.(*ssa.Const); isK && k.Value != nil && k.Value.Kind() == constant.Bool {
+			if constant.BoolVal(k.Value) != c.Pol {
+				continue
+			}
+		} else {
+			rc := normCond(rv, c.Pol)
+			extra = append(extra, rc)
+			extra = append(extra, expandBoolPhi(rc, depth+1)...)
+		}
+		// conditions that hold on EVERY way into this return block: its dominating edge conditions
+		cs := append(edgeCondsD(b, depth+1), extra...)
+		npaths++
+		set := map[key]bool{}
+		for _, cd := range cs {
+			set[key{cd.V, cd.Pol}] = true
+		}
+		if common == nil {
+			common = set
+			order = cs
+		} else {
+			for k := range common {
+				if !set[k] {
+					delete(common, k)
+				}
+			}
+		}
+	}
+	if npaths == 0 {
+		return nil
+	}
+	var out []Cond
+	seen := map[key]bool{}
+	for _, cd := range order {
+		k := key{cd.V, cd.Pol}
+		if common[k] && !seen[k] {
+			seen[k] = true
+			out = append(out, cd)
+		}
+	}
+	return out
+}
+
 func edgeCondsD(b *ssa.BasicBlock, depth int) []Cond {
 	var out []Cond
 	for x := b; x != nil; x = x.Idom() {
@@ -81,10 +159,12 @@ func edgeCondsD(b *ssa.BasicBlock, depth int) []Cond {
 				nc := normCond(iff.Cond, true)
 				out = append(out, nc)
 				out = append(out, expandBoolPhi(nc, depth)...)
+				out = append(out, predicateCallConds(nc, depth)...)
 			} else if p.Succs[1] == x && p.Succs[0] != x {
 				nc := normCond(iff.Cond, false)
 				out = append(out, nc)
 				out = append(out, expandBoolPhi(nc, depth)...)
+				out = append(out, predicateCallConds(nc, depth)...)
 			}
 		}
 	}
@@ -506,6 +586,7 @@ func fieldName(t types.Type, idx int) string {
 // static callee names ("call:Name").
 func sources(v ssa.Value) map[string]bool {
 	out := map[string]bool{}
+	helperDepth := 0
 	seen := map[ssa.Value]bool{}
 	var walk func(v ssa.Value, d int)
 	walk = func(v ssa.Value, d int) {
@@ -520,6 +601,10 @@ func sources(v ssa.Value) map[string]bool {
 				return
 			}
 			out["param:"+x.Name()] = true
+			// a parameter of an unexported helper with exactly one call site is that site's argument
+			if a := uniqueCallerArg(x); a != nil && d < 30 {
+				walk(a, d+1)
+			}
 			return
 		case *ssa.Const:
 			out[valKey(x)] = true
@@ -582,6 +667,25 @@ func sources(v ssa.Value) map[string]bool {
 		case *ssa.Call:
 			if cal := x.Call.StaticCallee(); cal != nil {
 				out["call:"+cal.Name()] = true
+				// an unexported module helper: what it returns is part of the slice (with its parameters bound to
+				// this call's arguments)
+				if lastCtx != nil && d < 30 && helperDepth < 3 && len(cal.Blocks) > 0 && cal.Object() != nil && !cal.Object().Exported() && lastCtx.inModule(cal) && !lastCtx.EntShape().isGenerated(cal) {
+					bind := map[*ssa.Parameter]ssa.Value{}
+					for i, p := range cal.Params {
+						if i < len(x.Call.Args) {
+							bind[p] = x.Call.Args[i]
+						}
+					}
+					helperDepth++
+					withBindMap(bind, func() {
+						for _, ret := range returnsOf(cal) {
+							for i := range ret.Results {
+								walk(retResult(ret, i), d+1)
+							}
+						}
+					})
+					helperDepth--
+				}
 			} else if x.Call.IsInvoke() {
 				out["call:"+x.Call.Method.Name()] = true
 			}
@@ -596,6 +700,49 @@ func sources(v ssa.Value) map[string]bool {
 	}
 	walk(v, 0)
 	return out
+}
+
+// uniqueCallerArg: for a parameter of an unexported module function or method that is called from exactly one place
+// (and never used as a value), the argument passed there.
+var uniqueArgCache = map[*ssa.Parameter]ssa.Value{}
+var uniqueArgCtx *Ctx
+
+func uniqueCallerArg(p *ssa.Parameter) ssa.Value {
+	c := lastCtx
+	if c == nil {
+		return nil
+	}
+	if uniqueArgCtx != c {
+		uniqueArgCtx, uniqueArgCache = c, map[*ssa.Parameter]ssa.Value{}
+	}
+	if v, ok := uniqueArgCache[p]; ok {
+		return v
+	}
+	uniqueArgCache[p] = nil
+	f := p.Parent()
+	if f == nil || f.Parent() != nil || f.Object() == nil || f.Object().Exported() || !c.inModule(f) || len(c.valueUses(f)) > 0 {
+		return nil
+	}
+	cs := c.callersOf(f)
+	var site ssa.CallInstruction
+	n := 0
+	for _, ci := range cs {
+		if c.FnInControl(ci.Parent()) {
+			continue
+		}
+		site = ci
+		n++
+	}
+	if n != 1 {
+		return nil
+	}
+	for i, q := range f.Params {
+		if q == p && i < len(site.Common().Args) {
+			uniqueArgCache[p] = site.Common().Args[i]
+			return site.Common().Args[i]
+		}
+	}
+	return nil
 }
 
 // resolve looks through conversions and loads of cells that are stored exactly once
